@@ -598,6 +598,11 @@ def run(chk: Check):
     timings["coq_calls"] = round(time.time() - t0, 1)
     chk.extra["searcher"] = "the single-fault enumeration above is the searcher (always run)"
 
+    # tie to the source by regeneration: the listed definitions are re-translated from /repo by py2coq on
+    # every run and PROVED equal to the hand models (coq/props/TIE.v), plus a translator self-check
+    from props._tie import run_tie
+    run_tie(chk, ['variables', 'index_participants'])
+
 
 def replay(chk: Check, payload):
     g = payload.get("group")
